@@ -24,7 +24,7 @@ class Stop(Exception):
 
 class Result:
     __slots__ = ("verdict", "reason", "bad", "info", "unspec", "uses", "requires",
-                 "tokens", "ntok", "maxdepth", "features")
+                 "tokens", "ntok", "maxdepth", "features", "lex_unspec")
 
     def __repr__(self):
         return "Result(%s,%s,bad=%s,unspec=%s)" % (self.verdict, self.reason, self.bad, self.unspec[:2])
@@ -378,6 +378,7 @@ def analyze_tokens(toks, lex_unspec=(), table=None, strict=False, known_exts=Non
     r = Result()
     r.tokens = toks
     r.ntok = len(toks)
+    r.lex_unspec = bool(lex_unspec)
     bad = None
     reason = None
     info = None
